@@ -41,3 +41,31 @@ Theorem C16_classes_ignore_case : forall c d, to_upper c = to_upper d ->
   is_alpha c = is_alpha d /\ is_digit c = is_digit d /\ is_suffix_chr c = is_suffix_chr d /\ is_ws c = is_ws d.
 Proof. exact to_upper_class. Qed.
 Print Assumptions C16_classes_ignore_case.
+
+(* ---- the whole scanner ignores letter case (Proofs/CaseLex.v) ---- *)
+From BL Require Import Proofs.CaseLex.
+
+(* numbers: e/E and d/D are the same exponent letters, and a letter pushed back comes back in upper case *)
+Theorem C16_numbers_ignore_case : forall cs cs' s d dec ex, same_letters cs cs' -> nc_head cs ->
+  num_rel (number_loop cs s d dec ex) (number_loop cs' s d dec ex).
+Proof. exact number_loop_case. Qed.
+Print Assumptions C16_numbers_ignore_case.
+
+(* the token loop: same tokens for texts that differ only in letter case, as long as no string literal and no remark is
+   among them (inside those every character is kept as typed) *)
+Theorem C16_token_loop_ignores_case : forall fuel cs cs' acc ts, same_letters cs cs' -> lex_loop fuel cs acc = Ok ts -> no_verbatim ts ->
+  lex_loop fuel cs' acc = Ok ts.
+Proof. exact lex_loop_case. Qed.
+Print Assumptions C16_token_loop_ignores_case.
+
+(* the whole scanner, line-number prefix and post passes included *)
+Theorem C16_lex_ignores_case : forall src src' ts, same_letters src src' -> raw_tokens src = Ok ts -> no_verbatim ts -> lex src' = lex src.
+Proof. exact lex_ignores_case. Qed.
+Print Assumptions C16_lex_ignores_case.
+
+Theorem C16_case_example :
+  lex (s2l "10 for i=1 to 1e3:print a1;&hff:next") = lex (s2l "10 FOR I=1 TO 1E3:PRINT A1;&HFF:NEXT")
+  /\ same_letters (s2l "10 for i=1 to 1e3:print a1;&hff:next") (s2l "10 FOR I=1 TO 1E3:PRINT A1;&HFF:NEXT")
+  /\ exists ts, raw_tokens (s2l "10 for i=1 to 1e3:print a1;&hff:next") = Ok ts /\ forallb (fun t => negb (verbatim t)) ts = true.
+Proof. exact case_example. Qed.
+Print Assumptions C16_case_example.
